@@ -3251,3 +3251,176 @@ func (f *ioFn) instCasts() (pointees []types.Type, indexZero bool, unknown bool)
 	})
 	return
 }
+
+// iohelpLatchNeverCleared: the error latch of the wrappers only ever receives
+// a value that is not nil. A store of a call's error result as it comes
+// (`_, er.Err = io.Copy(…)`), of nil, or of a variable outside a test that it
+// is not nil, overwrites a failure recorded earlier with "no error": the
+// emitted methods return the latch, so the failure is never reported.
+func iohelpLatchNeverCleared(c *core.Ctx, p *load.Prog, rule string) {
+	pk := p.Iohelp()
+	info := pk.TypesInfo
+	isWrapper := func(t types.Type) bool {
+		if pt, ok := t.(*types.Pointer); ok {
+			t = pt.Elem()
+		}
+		nt, ok := t.(*types.Named)
+		return ok && nt.Obj().Pkg() == pk.Types && (nt.Obj().Name() == "ErrorReader" || nt.Obj().Name() == "ErrorWriter")
+	}
+	n := 0
+	var fns []*types.Func
+	for fn, fd := range p.AllDecls() {
+		if p.Owner(fn) == pk && fd.Body != nil {
+			fns = append(fns, fn)
+		}
+	}
+	sort.Slice(fns, func(i, j int) bool { return fns[i].Pos() < fns[j].Pos() })
+	for _, fn := range fns {
+		fd := p.Decl(fn)
+		name := load.FuncName(fn)
+		var stack []ast.Node
+		k := 0
+		ast.Inspect(fd.Body, func(nd ast.Node) bool {
+			if nd == nil {
+				stack = stack[:len(stack)-1]
+				return true
+			}
+			stack = append(stack, nd)
+			as, ok := nd.(*ast.AssignStmt)
+			if !ok {
+				return true
+			}
+			for i, l := range as.Lhs {
+				sel, ok := ast.Unparen(l).(*ast.SelectorExpr)
+				if !ok || sel.Sel.Name != "Err" {
+					continue
+				}
+				if t := info.TypeOf(sel.X); t == nil || !isWrapper(t) {
+					continue
+				}
+				n++
+				k++
+				key := fmt.Sprintf("%s stores only a failure into the latch (#%d)", name, k)
+				pos := p.Pos(as.Pos())
+				if len(as.Rhs) == 1 && len(as.Lhs) > 1 {
+					c.Check(rule, key, pos, false, "the error result of "+wire.Canon(as.Rhs[0])+" is assigned to "+wire.Canon(l)+" as it comes: when the call succeeds the latch is set to nil, and a failure recorded by an earlier read or write of the same record is forgotten")
+					continue
+				}
+				if i >= len(as.Rhs) {
+					continue
+				}
+				rhs := ast.Unparen(as.Rhs[i])
+				switch x := rhs.(type) {
+				case *ast.Ident:
+					if x.Name == "nil" {
+						c.Check(rule, key, pos, false, wire.Canon(l)+" is set to nil: a failure recorded earlier is forgotten")
+						continue
+					}
+					// a variable: under a test that it is not nil
+					guarded := false
+					for j := len(stack) - 2; j >= 0 && !guarded; j-- {
+						var cond ast.Expr
+						switch y := stack[j].(type) {
+						case *ast.IfStmt:
+							if j+1 < len(stack) && stack[j+1] == ast.Node(y.Body) {
+								cond = y.Cond
+							}
+						case *ast.CaseClause:
+							if len(y.List) == 1 {
+								cond = y.List[0]
+							}
+						}
+						if cond == nil {
+							continue
+						}
+						var conj func(e ast.Expr)
+						conj = func(e ast.Expr) {
+							e = ast.Unparen(e)
+							if be, ok := e.(*ast.BinaryExpr); ok {
+								if be.Op == token.LAND {
+									conj(be.X)
+									conj(be.Y)
+									return
+								}
+								if be.Op == token.NEQ && wire.Canon(be.X) == x.Name && wire.Canon(be.Y) == "nil" {
+									guarded = true
+								}
+							}
+						}
+						conj(cond)
+					}
+					if !guarded {
+						// if v == nil { return | continue | break } earlier in an
+						// enclosing statement list
+						var earlier []ast.Stmt
+						for j := len(stack) - 1; j >= 0; j-- {
+							var list []ast.Stmt
+							switch y := stack[j].(type) {
+							case *ast.BlockStmt:
+								list = y.List
+							case *ast.CaseClause:
+								list = y.Body
+							}
+							for _, st := range list {
+								if st.End() <= as.Pos() {
+									earlier = append(earlier, st)
+								}
+							}
+						}
+						leaves := func(b *ast.BlockStmt) bool {
+							if len(b.List) == 0 {
+								return false
+							}
+							switch z := b.List[len(b.List)-1].(type) {
+							case *ast.ReturnStmt:
+								return true
+							case *ast.BranchStmt:
+								return z.Tok == token.CONTINUE || z.Tok == token.BREAK
+							}
+							return false
+						}
+						for _, st := range earlier {
+							if ifs, ok := st.(*ast.IfStmt); ok && ifs.Else == nil && leaves(ifs.Body) {
+								if be, ok := ast.Unparen(ifs.Cond).(*ast.BinaryExpr); ok && be.Op == token.EQL && wire.Canon(be.X) == x.Name && wire.Canon(be.Y) == "nil" {
+									guarded = true
+								}
+								// if err == nil || … { return }
+								if be, ok := ast.Unparen(ifs.Cond).(*ast.BinaryExpr); ok && be.Op == token.LOR {
+									for _, side := range []ast.Expr{be.X, be.Y} {
+										if sb, ok := ast.Unparen(side).(*ast.BinaryExpr); ok && sb.Op == token.EQL && wire.Canon(sb.X) == x.Name && wire.Canon(sb.Y) == "nil" {
+											guarded = true
+										}
+									}
+								}
+							}
+						}
+					}
+					if guarded {
+						c.Check(rule, key, pos, true, "")
+					} else {
+						c.Undecide("%s: %s = %s at %s is not under a test that %s is not nil: whether the latch can be cleared there is not decided", name, wire.Canon(l), x.Name, pos, x.Name)
+					}
+				case *ast.SelectorExpr:
+					// a package-level error value (io.ErrUnexpectedEOF)
+					if v, ok := info.Uses[x.Sel].(*types.Var); ok && v.Pkg() != nil && v.Parent() == v.Pkg().Scope() {
+						c.Check(rule, key, pos, true, "")
+					} else {
+						c.Undecide("%s: %s = %s at %s: the stored value is not recognised", name, wire.Canon(l), wire.Canon(x), pos)
+					}
+				case *ast.CallExpr:
+					fnn := wire.Canon(x.Fun)
+					if fnn == "errors.New" || fnn == "fmt.Errorf" {
+						c.Check(rule, key, pos, true, "")
+					} else {
+						c.Check(rule, key, pos, false, "the result of "+wire.Canon(x)+" is assigned to "+wire.Canon(l)+" as it comes: if it can be nil, a failure recorded earlier is forgotten")
+					}
+				default:
+					c.Undecide("%s: %s = %s at %s: the stored value is not recognised", name, wire.Canon(l), wire.Canon(rhs), pos)
+				}
+			}
+			return true
+		})
+	}
+	c.Count("latch_stores", n)
+	c.Floor("latch_stores", 3)
+}
